@@ -4,7 +4,8 @@
 (* Replica.Restore did (harness/cmd/restorefault), one log line per        *)
 (* restore of a replica with one corruption / one read-fault schedule:     *)
 (*   [t, i, rep, kind, file, off, mask, integ, pre, nf, cls,               *)
-(*    res \in {"ok","error","panic"}, errc, msg, outExists, tmpExists,     *)
+(*    res \in {"ok","error","panic"}, errc, msg, outExists, sideLeft,      *)
+(*    tmpExists,                                                           *)
 (*    out, ref (page ids), preSame, outDuring,                             *)
 (*    opens = <<  <<plan file, offset asked, bytes that stream delivered,  *)
 (*    killed by an injected fault>> ... >> in call order,                  *)
@@ -34,7 +35,8 @@ NoSilentWrong_ == (cur.res = "ok" /\ cur.detectable) => (cur.outExists /\ cur.ou
 MustFail_ == (Returned /\ cur.mustErr) => cur.res = "error"
 
 \* no file at the output path after an error (this includes: a failed integrity check removes the output)
-NoFileAfterError_ == (cur.res = "error" /\ ~cur.pre) => ~cur.outExists
+\* and no <output>-wal / <output>-shm left beside it (sideLeft)
+NoFileAfterError_ == (cur.res = "error" /\ ~cur.pre) => (~cur.outExists /\ ~cur.sideLeft)
 
 \* restore never overwrites an existing output path
 PreexistingUntouched_ == (Returned /\ cur.pre) => (cur.res = "error" /\ cur.outExists /\ cur.preSame)
